@@ -1,3 +1,3 @@
 #!/bin/bash
 # pre-build the simulator for Miri (part of setup)
-cd /verif/sim && MIRIFLAGS="-Zmiri-disable-isolation" CARGO_NET_OFFLINE=true cargo +nightly miri run --offline --no-default-features -- miri --from 0 --to 1 >/verif/sim/target-build-miri.log 2>&1 || { echo "miri build failed"; tail -20 /verif/sim/target-build-miri.log; exit 2; }
+cd "${VERIF_ROOT:-/verif}/sim" && MIRIFLAGS="-Zmiri-disable-isolation" CARGO_NET_OFFLINE=true cargo +nightly miri run --offline --no-default-features -- miri --from 0 --to 1 >${VERIF_ROOT:-/verif}/sim/target-build-miri.log 2>&1 || { echo "miri build failed"; tail -20 ${VERIF_ROOT:-/verif}/sim/target-build-miri.log; exit 2; }
